@@ -47,10 +47,14 @@ CLAIMS = [
                 "Helper threads (Props/C02Par.lean): parallel_exec's chunks partition the range (splitWork_partition; K1b compares the real "
                 "private member with splitWork), different stripes migrate independently (rehashLock_comm) and hence EVERY order in which the "
                 "helpers process their stripes yields the table of the sequential loop (migrate_any_order, migrate_with_workers); K2 streams "
-                "configure 1-5 helper threads for batch migrations.",
+                "configure 1-5 helper threads for batch migrations. Props/C02Rebuild.lean: the rebuild of cuckoo_expand_simple with helper threads = concurrent inserts of "
+                "the old array's elements (distinct keys) into the empty temporary map; for EVERY interleaving of their critical sections (any chunking, every call "
+                "answering once without exception) the temporary map ends up representing exactly those pairs, every insert answers `newly inserted`, size() is the "
+                "element count, and the contents / find answers equal those of the sequential loop (rebuild_contents_exact, rebuild_any_interleaving_same_contents, "
+                "seq_rebuild_is_schedule, helper_rebuild_contents with splitWork's chunks, helper_rebuild_preserves_map).",
         "design_ref": "DESIGN.md 6/C02, 12",
         "note": "Trusted: Lean kernel; K2 harness/driver/reference-map oracle; helper threads are modelled at the granularity of whole rehash_lock "
-                "calls (their bodies touch disjoint memory; rebuilds with helper threads are compared by contents only, their layout is timing dependent); "
+                "calls for migrations and of critical sections for rebuilds (contents proved order-independent in C02Rebuild; their layout is timing dependent and only compared by contents); "
                 "most streams lower the stripe limit through the hook; one stream per run (three in the thorough tier) uses the shipped kMaxNumLocks=65536 on a 2^16-bucket table that doubles with deferred migration; "
                 "C++ object model, allocator and std library are modelled, not verified.",
     },
